@@ -465,10 +465,10 @@ func runWire(dir string, seed uint64, tier string) {
 				case 3: // flip the body-presence: replace a body by null
 					in = bytes.Replace(in, []byte{0x67, 'R', 'e', 'q', 'u', 'e', 's', 't', 0xaa}, []byte{0x67, 'R', 'e', 'q', 'u', 'e', 's', 't', 0xf6}, 1)
 				default:
-					if len(in) > 6 && in[5] == 0xf5 {
-						in[5] = 0xf4
-					} else if len(in) > 6 && in[5] == 0xf4 {
-						in[5] = 0xf5
+					if len(in) > 7 && in[6] == 0xf5 {
+						in[6] = 0xf4
+					} else if len(in) > 7 && in[6] == 0xf4 {
+						in[6] = 0xf5
 					}
 				}
 				if len(in) == 0 {
